@@ -36,6 +36,8 @@ class Engine:
         self.n_feas = 0          # feasibility queries
         self.n_prop = 0          # property queries
         self.solver_s = 0.0
+        self.n_solver = 0        # actual solver calls (the rest was answered by the cached model)
+        self.cur_model = None
         self.solver = None
         self.pc = []
         self.pos = 0
@@ -52,14 +54,19 @@ class Engine:
         self.pc = []
         self.atoms = []
         self.forks_on_path = 0
+        self.cur_model = None      # a model of pc, when one is known (saves solver calls)
 
-    def _check(self, extra=None):
+    def _solve(self, extra=None, want_model=True):
+        """sat? of pc (and extra).  Keeps the model: a model of pc-and-extra is a model of pc."""
         t = time.time()
         if extra is not None:
             self.solver.push()
             self.solver.add(extra)
         try:
+            self.n_solver += 1
             r = self.solver.check()
+            if r == z3.sat and want_model:
+                self.cur_model = self.solver.model()
         finally:
             if extra is not None:
                 self.solver.pop()
@@ -68,13 +75,29 @@ class Engine:
             raise Unsupported('solver returned unknown: ' + self.solver.reason_unknown())
         return r == z3.sat
 
+    def _holds(self, cond):
+        m = self.cur_model
+        if m is None:
+            return False
+        return z3.is_true(m.eval(cond, model_completion=True))
+
+    def ensure_model(self):
+        if self.cur_model is None:
+            if not self._solve():
+                raise Abort('path condition infeasible')
+        return self.cur_model
+
     def feasible(self, cond):
         self.n_feas += 1
-        return self._check(cond)
+        if self._holds(cond):
+            return True
+        return self._solve(cond)
 
     def _commit(self, cond):
         self.pc.append(cond)
         self.solver.add(cond)
+        if self.cur_model is not None and not self._holds(cond):
+            self.cur_model = None
 
     def assume(self, cond):
         """Add a precondition.  Must be called before the code it constrains runs."""
@@ -87,9 +110,7 @@ class Engine:
 
     def assume_checked(self, cond):
         self.assume(cond)
-        self.n_feas += 1
-        if not self._check():
-            raise Abort('assumption infeasible')
+        self.ensure_model()
 
     def choose(self, conds, exhaustive=True):
         """k-way decision over z3 Bools; returns the chosen index.  With exhaustive=False the
@@ -97,14 +118,23 @@ class Engine:
         if self.pos < len(self.stack):
             ent = self.stack[self.pos]
         else:
-            feas = [i for i, c in enumerate(conds) if self.feasible(c)]
-            if not exhaustive:
-                self.n_feas += 1
-                if self._check(z3.Not(z3.Or(*conds)) if len(conds) > 1 else z3.Not(conds[0])):
-                    raise Unsupported('choose: alternatives not exhaustive')
-            if not feas:
-                raise Abort('no feasible alternative')
-            ent = [feas[0], feas[1:], len(feas) > 1]
+            m = self.ensure_model()
+            first = None
+            for i, c in enumerate(conds):
+                if z3.is_true(m.eval(c, model_completion=True)):
+                    first = i
+                    break
+            if first is not None and not self.feasible(z3.Not(conds[first])):
+                ent = [first, [], False]          # implied by pc: no decision to make
+            else:
+                feas = [i for i, c in enumerate(conds) if i == first or self.feasible(c)]
+                if not exhaustive:
+                    self.n_feas += 1
+                    if self._solve(z3.Not(z3.Or(*conds)) if len(conds) > 1 else z3.Not(conds[0]), want_model=False):
+                        raise Unsupported('choose: alternatives not exhaustive')
+                if not feas:
+                    raise Abort('no feasible alternative')
+                ent = [feas[0], feas[1:], len(feas) > 1]
             self.stack.append(ent)
         if ent[2]:
             self.forks_on_path += 1
@@ -133,17 +163,19 @@ class Engine:
     def domain(self, e, limit=MAXDOM):
         """Values the bit-vector term e can take under the current pc (up to limit+1 of them)."""
         vals = []
+        keep = self.cur_model
         self.solver.push()
         try:
             while len(vals) <= limit:
                 self.n_feas += 1
-                if not self._check():
+                if not self._solve():
                     break
-                v = self.solver.model().eval(e, model_completion=True).as_long()
+                v = self.cur_model.eval(e, model_completion=True).as_long()
                 vals.append(v)
                 self.solver.add(e != v)
         finally:
             self.solver.pop()
+            self.cur_model = keep
         return vals
 
     def must(self, cond):
@@ -153,25 +185,23 @@ class Engine:
             return True
         if cond is False:
             return False
-        self.n_feas += 1
-        return not self._check(z3.Not(cond))
+        return not self.feasible(z3.Not(cond))
 
     def model(self, extra=None):
         """A model of pc (and extra), or None."""
-        t = time.time()
-        self.solver.push()
-        try:
-            if extra is not None:
-                self.solver.add(extra)
-            r = self.solver.check()
-            if r == z3.unknown:
-                raise Unsupported('solver returned unknown: ' + self.solver.reason_unknown())
-            if r != z3.sat:
+        if extra is None:
+            try:
+                return self.ensure_model()
+            except Abort:
                 return None
-            return self.solver.model()
-        finally:
-            self.solver.pop()
-            self.solver_s += time.time() - t
+        if self._holds(extra):
+            return self.cur_model
+        keep = self.cur_model
+        if self._solve(extra):
+            m = self.cur_model
+            return m
+        self.cur_model = keep
+        return None
 
 
 def as_bool(c):
